@@ -266,7 +266,7 @@ class Gen:
     def cond(self, d):
         rs = self.rs
         t = ("bool",)
-        c = rs.weighted([(5, "cmp"), (2, "cmpint"), (2, "eqbv"), (2, "chain"), (2, "chainn"), (3, "bit"), (3, "logic"), (1, "not"), (1, "anyall")] if d < 3 else [(3, "cmp"), (3, "bit")])
+        c = rs.weighted([(5, "cmp"), (2, "cmpint"), (2, "eqbv"), (2, "chain"), (2, "chainn"), (1, "cmpnf"), (3, "bit"), (3, "logic"), (1, "not"), (1, "anyall")] if d < 3 else [(3, "cmp"), (3, "bit")])
         if c == "bit":
             return ["tobool", t, self.bit(max(d, 2) + 1)]
         if c in ("cmp", "cmpint", "chain"):
@@ -283,6 +283,10 @@ class Gen:
                 return ["cmp", t, op, ci, a] if rs.below(2) else ["cmp", t, op, a, ci]
             op2 = rs.choice(["lt", "le", "gt", "ge"])
             return ["chain", t, op, op2, ci, a, self.gen((k, w2), d + 1)]
+        if c == "cmpnf":
+            k = rs.choice(["U", "S"])
+            w1 = rs.choice(self.ports_of_kind(k))
+            return ["cmpnf", t, rs.choice(["lt", "le", "gt", "ge", "eq", "ne"]), self.gen((k, w1), d + 1), rs.choice(["Null", "Full"]), rs.below(2)]
         if c == "chainn":
             # chains of 3-4 operands in which some operands (also neighbouring ones) are compile-time constants: a link
             # between two constants is folded, the links around it still compare with the right operands
@@ -378,6 +382,9 @@ def r(e, bit_as_cond=False):
         s1 = {"lt": "<", "le": "<=", "gt": ">", "ge": ">=", "eq": "==", "ne": "!="}[e[2]]
         s2 = {"lt": "<", "le": "<=", "gt": ">", "ge": ">="}[e[3]]
         return f"({r(e[4])} {s1} {r(e[5])} {s2} {r(e[6])})"
+    if op == "cmpnf":
+        sym = {"lt": "<", "le": "<=", "gt": ">", "ge": ">=", "eq": "==", "ne": "!="}[e[2]]
+        return f"({e[4]} {sym} {r(e[3])})" if e[5] else f"({r(e[3])} {sym} {e[4]})"
     if op == "chainn":
         sym = {"lt": "<", "le": "<=", "gt": ">", "ge": ">=", "eq": "==", "ne": "!="}
         txt = r(e[3][0])
@@ -547,6 +554,13 @@ def ev(e, env):
         x, y, z = num(e[4], env), num(e[5], env), num(e[6], env)
         f = lambda o, p, q: {"lt": p < q, "le": p <= q, "gt": p > q, "ge": p >= q, "eq": p == q, "ne": p != q}[o]
         return int(f(e[2], x, y) and f(e[3], y, z))
+    if op == "cmpnf":
+        # comparison with the literals Null (all zeros) / Full (all ones: the largest Unsigned, -1 for Signed)
+        ta = typ(e[3])
+        lit = 0 if e[4] == "Null" else (-1 if ta[0] == "S" else mask(ta[1]))
+        x = num(e[3], env)
+        p_, q_ = (lit, x) if e[5] else (x, lit)
+        return int({"lt": p_ < q_, "le": p_ <= q_, "gt": p_ > q_, "ge": p_ >= q_, "eq": p_ == q_, "ne": p_ != q_}[e[2]])
     if op == "chainn":
         f = lambda o, p, q: {"lt": p < q, "le": p <= q, "gt": p > q, "ge": p >= q, "eq": p == q, "ne": p != q}[o]
         vals = [num(x, env) for x in e[3]]
